@@ -6,6 +6,7 @@ from . import c17, c12, c02
 
 ID = "C07"
 LEAN_MODULE = "Ucfg.Props.C07"
+LEVEL_TEXT = "Totality theorems: the flag-value parser and the splice lexer/parser never panic on any string; get/set/remove never panic through the regenerated bounds guards; growth bounded by MaxIdx (C20). Plus the regenerated inventory of panic-capable sites against a reviewed one, and malformed streams with panic/fatal/timeout/goroutine-leak observation. Third-party decoders only exercised; evaluator termination is C08's partial part."
 CORRESPONDENCE = "every modelled entry point (Parse, Vars, Path/Ops, Normalize, Unpack) ~ the public API, plus an unmodelled stream through the format loaders"
 RULE = ("dedicated malformed streams: (a) arbitrary byte strings (random bytes, truncated / bit-flipped / deeply nested documents, YAML "
         "anchors and merge keys, invalid UTF-8) through yaml/json/hjson.NewConfig with and without PathSep/VarExp, followed by Unpack and "
